@@ -70,6 +70,13 @@ int main(int argc, char** argv) {
       } else { ev_begin("fullclose"); ev_str("exc", "noopen"); ev_str("delexc", ""); ev_int("cleared", 1); ev_int("closes", 1); ev_int("line", cur_line); ev_end(); }
       continue;
     }
+    if (hc_is(0, "procclose2")) {           /* the same closed-handle test for the other stream type: a Process closed twice */
+      volatile var pp = NULL; const char* x1 = ""; const char* x2 = "";
+      HC_TRY(pp = new_raw(Process, $S("true"), $S("r")));
+      if (pp) { HC_TRY(sclose(pp)); x1 = hc_exc; HC_TRY(sclose(pp)); x2 = hc_exc; HC_TRY(del_raw(pp)); }
+      ev_begin("procclose2"); ev_str("exc", x1); ev_str("exc2", x2); ev_str("delexc", hc_exc); ev_int("line", cur_line); ev_end();
+      continue;
+    }
     int o = (int)hc_int(1);
     if (o <= 0 || o >= MAXO) return 9;
     if (hc_is(0, "new")) {
